@@ -259,7 +259,7 @@ def r2(ctx, R):
 
 
 @rule("C18.R3", "C18", "REACH", "defined references leave live containers only through the ReferenceManager",
-      min_instances=5)
+      min_instances=5, also=("C13",))
 def r3(ctx, R):
     """User-facing removals of a defined reference (del space.x, del model.x, x = v re-binding,
     deleting a space) reach ReferenceManager.del_ref / change_ref; the low-level removers
@@ -284,8 +284,11 @@ def r3(ctx, R):
         if len(loops) >= 2 and any(norm(l.iter) == "nodes_removed" for l in loops) \
                 and any("own_refs" in norm(l.iter) for l in loops):
             g = q.guards_of(dd, c)
+            inner = [n_ for n_ in dd.cfg.nodes if n_.kind == "test" and n_.ast is not None and any(
+                a is loops[0] for a in ancestors(dd.pm, n_.ast))]
+            # inside the loops the only condition is "defined": every defined reference is released
             if any(t.endswith(".is_defined()") and l == "T" for t, l in g) and \
-                    sum(1 for t, l in g if l == "T") == 1:
+                    {norm(n_.ast) for n_ in inner} == {t for t, l in g if t.endswith(".is_defined()")}:
                 okd = True
     if not okd:
         R.bad(dd, dd.node, "a deleted space takes its defined references with it without releasing them: the IOSpec of a "
@@ -341,6 +344,12 @@ def r4(ctx, R):
     rs = q.raises(ad, "ValueError")
     if not rs or ("io_._can_add_spec(spec)", "F") not in q.guards_of(ad, rs[0]):
         R.bad(ad, ad.node, "a clashing spec is silently ignored", stmt="raise ValueError")
+    pl = ctx.func("custom_pickle:IOSpecUnpickler.persistent_load")
+    R.inst("IOSpecUnpickler: a file taken out of a zip keeps its relative path under the temporary root")
+    dv = [q.anorm(pl, v) for v in assigned_value(pl, "dst")]
+    if not dv or any(v != "self.reader.temproot.joinpath(path)" for v in dv):
+        R.bad(pl, pl.node, "files of the archive are flattened into one temporary folder: two IO files with the same name in "
+                           "different folders collide and the second spec loads the first file's value", stmt="dst = temproot/path")
     er = ctx.func("ExcelRange._can_add_other")
     R.inst("ExcelRange._can_add_other: two ranges are disjoint only if one ends strictly before the other begins")
     ncmp = 0
